@@ -92,6 +92,18 @@ def run(tier, rng, C):
         if len(set(toks)) != len(toks):
             fails.append("pkce n=%d: repeated values among %d draws" % (n, draws))
     stats["per_byte_count_variation_draws"] = draws
+    # within ONE value: neighbouring bytes must not be equal more often than chance (a tail filled
+    # with one repeated random byte passes the per-position test above)
+    import math as _m
+    for kind, lo in (("CSRF", 2), ("PKCERAND", 32)):
+        for n in range(max(lo, 2), 97, 1):
+            toks = [o.split(" ")[1] for o in C.run_impl(["%s %d" % (kind, n) for _ in range(12)]) if o.startswith("ok ")]
+            raws = [dec(C.untb(t).decode()) for t in toks]
+            eq = sum(1 for r in raws for i in range(len(r) - 1) if r[i] == r[i + 1])
+            pairs = sum(max(0, len(r) - 1) for r in raws)
+            mean = pairs / 256.0
+            if eq > mean + 8 * _m.sqrt(mean) + 4:
+                fails.append("%s n=%d: %d of %d neighbouring byte pairs inside single values are equal (expected about %.1f)" % (kind.lower(), n, eq, pairs, mean))
     # supporting statistics
     total = 200000 if tier == "quick" else 4000000
     threads = 8 if tier == "quick" else 16
